@@ -39,6 +39,19 @@ CLAIMED = {
               "is_weakly_oriented, is_oriented) is NOT decided."),
         note=("Representations are built directly from a symbolic array constrained by the validity predicate; one "
               "harness proves new+set establish/preserve that predicate.")),
+    "C05": dict(
+        design_ref="DESIGN.md §4 C05",
+        text=("Bounded model checking of derived::cover — the one construction through which every cover "
+              "constructor builds its result — for EVERY valid base D-symbol of the given shape and EVERY "
+              "admissible sheet map: the result has sheets x base chambers, its operations lie over the base "
+              "operations on the prescribed sheets and are involutions, degrees are preserved, r is the true "
+              "orbit length, the cover is complete. 2 sheets over 1 chamber in dimension 2 (quick); 3 sheets, 2 "
+              "chambers, dimension 3 (thorough, stretch). PARTIAL: the sheet maps the individual constructors "
+              "compute (Traversal / fundamental group / coset tables), connectedness, orientedness, universal "
+              "cover and conjugacy-class counts are NOT decided."),
+        note=("Decided: the covering construction given an admissible sheet map. Not decided: everything specific "
+              "to oriented_cover / covers / subgroup_cover / finite_universal_cover / cover_for_table beyond "
+              "their common call of cover().")),
     "C10": dict(
         design_ref="DESIGN.md §4 C10",
         text=("Bounded model checking of every FreeWord operation (new/from/empty, six product forms, *=, inverse, "
@@ -80,7 +93,6 @@ CLAIMED = {
 NOT_APPLICABLE = {
     "C03": "canonical form runs through Traversal (HashSet + BTreeMap + VecDeque); symbolic execution does not finish for 2 chambers",
     "C04": "fold/is_minimal/minimal_image need the HashMap-indexed union-find; automorphisms() ran out of 26 GB at 2 chambers",
-    "C05": "every cover constructor needs Traversal or coset enumeration (HashMap/BTreeMap state) plus a subgroup-class oracle",
     "C06": "running the back-tracking generator inside CBMC did not leave symbolic execution in 25 min for (dim 1, size 2)",
     "C07": "generator filter builds orbifold symbols as Strings (fmt), needs automorphisms and a back-tracking stack",
     "C08": "curvature/orbifold_symbol go through Traversal, oriented_cover, HashSet and String",
